@@ -444,7 +444,7 @@ def main():
         for n in e.get("equiv", []):
             if n not in decls or decls[n][0] != "theorem":
                 problems["c"].append("%s (equivalence theorem, entry %s)" % (n, e["fn"][0]))
-            elif not n.endswith("_generated_eq_model"):
+            elif "_generated_eq_model" not in n:
                 problems["c"].append("%s is not a `_generated_eq_model` theorem (entry %s)" % (n, e["fn"][0]))
         for n in e.get("theorems", []):
             if n not in decls or decls[n][0] != "theorem":
